@@ -80,6 +80,8 @@ def simplex_ref(v, z):
     css = np.cumsum(u) - z
     ks = np.arange(1, len(v) + 1)
     cond = u - css / ks > 0
+    if not np.any(cond):          # z == 0: the set is the single point 0
+        return np.zeros_like(v)
     rho = ks[cond][-1]
     theta = css[cond][-1] / rho
     return np.maximum(v - theta, 0)
@@ -214,6 +216,11 @@ def run_case(case, ctx):
         comp = lambda r: refx + r.standard_normal(v.shape) * (nrm + 1) * 0.1
     elif op in ("simplex", "soft_sparsity"):
         param = float(gen.choice(rs, [0.5, 1.0, 3.0, 0.01]) * (scale if rs.rand() < 0.5 else 1.0))
+        if rs.rand() < 0.08:
+            # the degenerate radius: the simplex / l1 ball of size 0 is the single point 0 (only through the operators themselves:
+            # in proximal_operator a 0 means "this constraint is not requested")
+            param, via_dispatch = 0.0, False
+            desc["class"] = cls = cls + "+radius0"
         if op == "simplex":
             f = (lambda a: P.proximal_operator(a, simplex=param)) if via_dispatch else (lambda a: P.simplex_prox(a, param))
             refx = np.stack([simplex_ref(c, param) for c in cols(vh)], axis=-1) if vh.ndim == 2 else simplex_ref(vh, param)
